@@ -407,7 +407,7 @@ func init() {
 			"RunPending non-termination is decided by a 30 s bound on work that takes microseconds",
 		},
 		NumCases: func(tier, build string) int { return vf.Tiered(tier, 600, 300000) },
-		Floor:    func(tier string) int { return vf.Tiered(tier, 100, 2000) },
+		Floor:    func(tier string) int { return vf.Tiered(tier, 100, 500) },
 		Run:      runC03,
 	})
 }
